@@ -5,7 +5,7 @@ From Verif Require Import Base C11 C11_proofs C12 C12_proofs.
 
 (* nearest neighbour: for every leading index l and destination i the result holds the value of a
    source element (of the kind chosen as coded) whose distance key is minimal *)
-Theorem C12_nn : forall nn nf ne t data res, c12_nn nn nf ne t data = Some res ->
+Theorem C12_nn : forall rank1 nn nf ne t data res, c12_nn rank1 nn nf ne t data = Some res ->
   exists r0 kd, hd_error data = Some r0 /\
     c12_kind_by_length nn nf ne (Z.of_nat (length r0)) = Some kd /\
     length res = length data /\
@@ -17,15 +17,15 @@ Theorem C12_nn : forall nn nf ne t data res, c12_nn nn nf ne t data = Some res -
 Proof. exact c12_nn_spec. Qed.
 Print Assumptions C12_nn.
 
-(* remapping onto the source grid's own elements (distinct positions, more than one) is the identity,
+(* remapping onto the source grid's own elements (distinct positions) is the identity,
    whenever the coded choice of the element kind is the data's kind *)
-Theorem C12_identity : forall nn nf ne t data kd r0,
+Theorem C12_identity : forall rank1 nn nf ne t data kd r0,
   hd_error data = Some r0 ->
   c12_kind_by_length nn nf ne (Z.of_nat (length r0)) = Some kd ->
   c12_own_table (c12_table t kd) ->
   Forall (fun row => length row = length (c12_table t kd)) data ->
-  length (c12_table t kd) <> 1%nat ->
-  c12_nn nn nf ne t data = Some data.
+  rank1 = false \/ length (c12_table t kd) <> 1%nat ->
+  c12_nn rank1 nn nf ne t data = Some data.
 Proof. exact c12_nn_identity. Qed.
 Print Assumptions C12_identity.
 
@@ -56,8 +56,8 @@ Print Assumptions C12_identity_by_dim.
 (* IDW: guards and shape; every leading index alike *)
 Theorem C12_idw : forall nn nf ne t data scale p eps k res,
   c12_idw nn nf ne t data scale p eps k = Some res ->
-  (2 <= k)%nat /\ Z.of_nat k <= nn /\
-  exists r0 kd, hd_error data = Some r0 /\
+  (2 <= k)%nat /\
+  exists r0 kd, hd_error data = Some r0 /\ (k <= length r0)%nat /\
     c12_kind_by_length nn nf ne (Z.of_nat (length r0)) = Some kd /\
     Z.of_nat k <= c12_count nn nf ne kd /\
     length res = length data /\
@@ -65,6 +65,14 @@ Theorem C12_idw : forall nn nf ne t data scale p eps k res,
       nth_error res l = Some (map (c12_idw_point scale p eps k row) (c12_table t kd)).
 Proof. exact c12_idw_spec. Qed.
 Print Assumptions C12_idw.
+
+(* every admissible k (2 <= k <= number of source elements carrying the data) is answered, whatever the
+   element kind and the number of destination points *)
+Theorem C12_idw_answers : forall nn nf ne t data scale p eps k r0 kd,
+  hd_error data = Some r0 -> c12_kind_by_length nn nf ne (Z.of_nat (length r0)) = Some kd ->
+  (2 <= k <= length r0)%nat -> exists res, c12_idw nn nf ne t data scale p eps k = Some res.
+Proof. exact c12_idw_answers. Qed.
+Print Assumptions C12_idw_answers.
 
 (* the k neighbours entering the weighted value are the k nearest (brute-force specification of C11) *)
 Theorem C12_idw_neighbours : forall keys k, c11_knn_ok keys k (c11_knn keys k).
@@ -122,15 +130,6 @@ Theorem C12_idw_fast : forall nn nf ne t data scale p eps k,
 Proof. exact c12_idw_fast_shape. Qed.
 Print Assumptions C12_idw_fast.
 
-(* the k guard compares with the number of nodes whatever the data's kind is: an admissible k is
-   rejected when faces outnumber nodes *)
-Theorem C12_idw_k_guard_refuted : exists nn nf ne t data scale p eps k,
-  hd_error data = Some (repeat 0%Q 20) /\
-  c12_kind_by_length nn nf ne 20 = Some C11Faces /\ (2 <= k)%nat /\ Z.of_nat k <= nf /\
-  c12_idw nn nf ne t data scale p eps k = None.
-Proof. exact c12_idw_k_guard_refuted. Qed.
-Print Assumptions C12_idw_k_guard_refuted.
-
 (* output dimensions: the input's with the last replaced by the destination's *)
 Theorem C12_dims : forall dims dest, dims <> [] ->
   length (c12_out_dims dims dest) = length dims
@@ -139,19 +138,18 @@ Theorem C12_dims : forall dims dest, dims <> [] ->
 Proof. exact c12_out_dims_spec. Qed.
 Print Assumptions C12_dims.
 
-(* a destination with exactly one element (one-face grid, remap_to = face centres) is rejected by the
-   code as it stands, for NN and IDW alike, although every parameter is admissible ... *)
-Theorem C12_single_destination_refuted : exists nn nf ne t data,
-  hd_error data = Some [1#1; 2#1; 3#1]%Q /\ c12_kind_by_length nn nf ne 3 = Some C11Nodes /\
-  c12_table t C11Nodes = [[5; 1; 7]] /\
-  c12_nn nn nf ne t data = None /\
-  c12_idw nn nf ne t data 1%positive 2%nat (1 # 1000000)%Q 2%nat = None.
-Proof. exact c12_single_destination_refuted. Qed.
-Print Assumptions C12_single_destination_refuted.
-
-(* ... and that is the only reason for nearest-neighbour remapping to refuse data whose length is one of the counts *)
-Theorem C12_nn_answers : forall nn nf ne t data r0 kd,
+(* nearest-neighbour remapping answers whenever the trailing length is one of the counts, a single
+   destination element included, unless the data are one-dimensional and there is one destination element *)
+Theorem C12_nn_answers : forall rank1 nn nf ne t data r0 kd,
   hd_error data = Some r0 -> c12_kind_by_length nn nf ne (Z.of_nat (length r0)) = Some kd ->
-  length (c12_table t kd) <> 1%nat -> exists res, c12_nn nn nf ne t data = Some res.
+  rank1 = false \/ length (c12_table t kd) <> 1%nat ->
+  exists res, c12_nn rank1 nn nf ne t data = Some res.
 Proof. exact c12_nn_answers. Qed.
 Print Assumptions C12_nn_answers.
+
+(* ... in which case the code as it stands squeezes the result to 0-d and raises *)
+Theorem C12_nn_rank1_single_destination_refuted : exists nn nf ne t data,
+  hd_error data = Some [1#1; 2#1; 3#1]%Q /\ c12_kind_by_length nn nf ne 3 = Some C11Nodes /\
+  c12_table t C11Nodes = [[5; 1; 7]] /\ c12_nn true nn nf ne t data = None.
+Proof. exact c12_nn_rank1_single_destination_refuted. Qed.
+Print Assumptions C12_nn_rank1_single_destination_refuted.
